@@ -26,6 +26,7 @@ PROP = {
         {"pkg": "c09", "test": "TestIsolation", "quick": 6000, "thorough": 30000, "shards": 8},
         {"pkg": "c09", "test": "TestBurst", "quick": 16000, "thorough": 30000, "shards": 8},
         {"pkg": "c09", "test": "TestWitnessBoundaryInstant", "kind": "plain"},
+        {"pkg": "c09", "test": "TestRegressionMetricsReadAfterResize", "kind": "plain"},
     ],
     "technique": ("property-based testing (rapid) of generated arrival histories on a harness-owned virtual clock; oracle = reference counter "
                   "keyed by (remedy, group, floor(t/W)) over the observed verdicts (upper bound + sequential exactness + status), metamorphic "
